@@ -102,6 +102,32 @@ def mathSqrt : Val → R Val
   | .num x => if cmpLt x (.int 0) then pyExn "ValueError" else liftE (do let f ← x.toFloat; fin (Float.sqrt f)) |>.map .num
   | _ => bad
 
+/-- `loghelper(x)` of CPython's `math.log`: `ValueError` ("math domain error") for a non-positive number and for a positive
+    Fraction so small that `float(x)` is 0.0; `OverflowError` when `float(x)` overflows (a huge Fraction); a huge int is
+    handled through `frexp` (`Elementary.pyLog`) -/
+def mathLogArg (x : Num) : Except Err Float :=
+  if cmpLe x (.int 0) then .error (.py "ValueError") else
+  match Elementary.pyLog x with
+  | .error .runtime => .error (.py "ValueError")
+  | r => r
+
+/-- `math.log(x, base)` = `loghelper(x) / loghelper(base)`: the argument is examined first; a zero denominator
+    (`float(base) == 1.0`) is `ZeroDivisionError` -/
+def mathLog2 : Val → Val → R Val
+  | .num x, .num b =>
+    liftE (do
+      let lx ← mathLogArg x
+      let lb ← mathLogArg b
+      if lb == 0 then .error .divZero else fin (lx / lb)) |>.map .num
+  | _, _ => bad
+
+/-- `try: <body> except <cls>: <handler>` for a host exception class the body can raise (`ValueError`); Ka's own error
+    classes and the other host exceptions are not subclasses of it and pass through -/
+def pyTry {α : Type} (body : R α) (cls : String) (handler : R α) : R α :=
+  match body with
+  | .error (.err (.py c)) => if c == cls then handler else body
+  | r => r
+
 /-- the comparison builtins `operator.lt / le / eq / ne / gt / ge` on two Python numbers (exact across kinds); the result
     is a Python bool -/
 def pyOperatorCmp (name : String) (_rec : Disp) : Val → Val → R Bool
